@@ -80,7 +80,8 @@ CRASH_KEYS = {
 }
 K_BADFILE = "error-file-is-not-a-file-name:type_check._type_check_local_reference"
 K_ENUM_ORD = "enum-operands-to-ordering-comparison-accepted"
-K_ENUM_VALUE = "enum-value-of-non-integer-type-accepted"
+K_ENUM_VALUE = "enum-value-of-enum-type-accepted"
+K_ENUM_VALUE_BOOL = "enum-value-of-boolean-type-accepted"
 K_PASS_ENUM = "passed-enum-parameter-of-a-different-enum-accepted"
 K_ARRAY_SUB = "array-length-with-non-integer-subexpression-rejected"
 
@@ -440,8 +441,9 @@ def oracle(case, out):
     """case: dict(text, expect='accept'|'reject', line, rule).  Returns (why, key) or None."""
     if out["kind"] == "crashed":
         key = out["key"]
-        if case.get("rule") == "position:enum-value":
-            key = K_ENUM_VALUE      # same defect: the value is never type-checked, then folded as an integer
+        if case.get("rule", "").startswith("position:enum-value"):
+            # same defect: the value is never type-checked, then folded as an integer
+            key = K_ENUM_VALUE_BOOL if case["rule"].endswith(":bool") else K_ENUM_VALUE
         return "uncaught exception %s" % out["exc"], key
     for g in out.get("groups", []):
         if g["bad"]:
@@ -466,8 +468,8 @@ def oracle(case, out):
         rule = case.get("rule", "")
         if rule.startswith("comparison:") and rule.endswith(":enum-enum"):
             key = K_ENUM_ORD
-        elif rule == "position:enum-value":
-            key = K_ENUM_VALUE
+        elif rule.startswith("position:enum-value"):
+            key = K_ENUM_VALUE_BOOL if rule.endswith(":bool") else K_ENUM_VALUE
         elif rule == "parameter:pass-other-enum":
             key = K_PASS_ENUM
         return "module breaking rule %s on line %d was accepted by the typing passes" % (rule, case["line"]), key
